@@ -31,8 +31,8 @@ from agilerl.training.train_bandits import train_bandits
 warnings.filterwarnings("ignore")
 
 NMAX = 8           # largest output-layer parameter count whose matrices are compared entry by entry inside Coq
-TOL = 1.0 / 256    # |sigma_inv - S_k| <= TOL / lam entrywise (|S_k| <= 1/lam); float32 drift of <= 30 rank-one updates
-OTOL = 5e-3        # oracle: max |sigma_inv @ A - I|
+TOL = 1.0 / 16384   # entrywise: abs(sigma_inv - S_k) <= TOL / lam (entries of S_k are bounded by 1/lam); measured float32 drift after <= 30 rank-one updates is about 1.3e-7 / lam
+OTOL = 2e-4        # oracle: max abs(sigma_inv @ A - I); measured about 2e-6
 ALGOS = {"ucb": NeuralUCB, "ts": NeuralTS}
 MUT_KINDS = ("none", "arch", "param", "act", "rl_hp")
 
@@ -264,7 +264,7 @@ class C19(vlib.Driver):
                     "correspondence harness harness/c19.py (independent autograd recomputation of the arm features, "
                     "scripted np.random.choice for node counts, float32 -> Q exact conversion)",
                     "mathcomp 1.15 (ssreflect, algebra) for the Sherman-Morrison / Gram-inverse theorems"]
-    assumptions = ["float32 drift of sigma_inv is bounded only empirically: entries within 2^-8 / lambda of the exact inverse "
+    assumptions = ["float32 drift of sigma_inv is bounded only empirically: entries within 2^-14 / lambda of the exact inverse "
                    "after <= 30 updates (K tolerance, evaluated in Q)",
                    "which arm is chosen (argmax / Thompson sample) is an input of the model, not modelled",
                    "torch autograd gives the gradient of the network output w.r.t. the output layer (recomputed independently)",
@@ -274,7 +274,7 @@ class C19(vlib.Driver):
     # ---------- generation
     def generate(self, tier, rng):
         cases = []
-        nhist = 48 if tier == "quick" else 300
+        nhist = 48 if tier == "quick" else 240
         for i in range(nhist):
             algo = "ucb" if i % 2 == 0 else "ts"
             arms = rng.randint(2, 4)
@@ -507,12 +507,17 @@ class C19(vlib.Driver):
     def q_mat(M):
         return "[" + "; ".join("[" + "; ".join(coq_Q(x) for x in row) + "]" for row in M) + "]"
 
-    def q_obs(self, rec, arms=None):
+    def q_obs(self, rec, arms=None, gamma=1.0):
         sig = "None" if rec["sigma"] is None else f"(Some {self.q_mat(rec['sigma'])})"
         shape = rec["shape"] if len(rec["shape"]) == 2 else [4999, 4999]
-        g = self.q_mat(arms) if (arms and rec["sigma"] is not None) else "[]"
+        g, b = "[]", "[]"
+        if arms and rec["sigma"] is not None:
+            g = self.q_mat(arms)
+            bonus = rec.get("bonus")
+            if bonus is not None and len(bonus) == len(arms) and all(x is not None for x in bonus):
+                b = "[" + "; ".join(coq_Q(x / gamma) for x in bonus) + "]"
         return (f"{{| o_numel := {rec['numel']}; o_bound := {vlib.coq_bool(rec['bound'])}; o_rows := {shape[0]}; "
-                f"o_cols := {shape[1]}; o_sigma := {sig}; o_arms := {g} |}}")
+                f"o_cols := {shape[1]}; o_sigma := {sig}; o_arms := {g}; o_bonus := {b} |}}")
 
     def coq_term(self, case, obs):
         if case["kind"] == "loop":
@@ -541,7 +546,7 @@ class C19(vlib.Driver):
                 if not (0 <= a < len(rec["G"])):
                     break
                 ops.append("Act [" + "; ".join(coq_Q(x) for x in rec["G"][a]) + "]")
-                obl.append(self.q_obs(rec, rec["G"]))
+                obl.append(self.q_obs(rec, rec["G"], float(case["gamma"])))
                 continue
             if op[0] == "learn":
                 ops.append("Learn")
